@@ -115,6 +115,8 @@ class EZSP:
                 pass
             else:
                 LOGGER.debug("Received a reset on startup, not resetting again")
+                # The NCP has reset: it speaks protocol v4 until negotiation is repeated
+                self._switch_protocol_version(v4.EZSPv4.VERSION)
                 self.start_ezsp()
 
         if not self.is_ezsp_running:
